@@ -185,6 +185,48 @@ func c02Run(c *core.Ctx, idx int) {
 		c.Violatef("fmt-differs", tree, "fmt %%s gives %q but String() %q", got2, got)
 		return
 	}
+	if idx%5 == 2 {
+		// the other roads to the same text: %v, Sprint, a pointer to the handle, a copy of the handle
+		cp := root
+		var routes [4]string
+		if p, msg, site := Guard(func() {
+			routes[0] = fmt.Sprintf("%v", root)
+			routes[1] = fmt.Sprint(root)
+			routes[2] = (&cp).String()
+			routes[3] = fmt.Sprintf("%s|%s", root, root)
+		}); p {
+			c.Violatef("panic:"+site, tree, "rendering through fmt panicked: %s on %s", msg, tree.Brief())
+			return
+		}
+		for i, g := range routes[:3] {
+			if g != want {
+				c.Violatef("fmt-differs", tree, "route %d (%%v / Sprint / pointer to the handle) gives %q, canonical rendering %q", i, g, want)
+				return
+			}
+		}
+		if routes[3] != want+"|"+want {
+			c.Violatef("fmt-differs", tree, "rendering twice in one format call gives %q, canonical rendering %q twice", routes[3], want)
+			return
+		}
+		c.Count("rendered.through-other-routes")
+	}
+	if idx%7 == 3 {
+		// an unrelated tree is built, configured and rendered in between: this one reads as before
+		other := c02Gen.Gen(core.NewRng(core.Mix(uint64(c.Seed)+0x07e4, uint64(idx))))
+		ow, oin := RefRenderStack(other.BuildStack())
+		var og, again string
+		if p, _, _ := Guard(func() { og = other.BuildStack().String(); again = root.String() }); !p {
+			if oin && og != ow {
+				c.Violatef("other-tree:"+c02Classify(other, og, ow), other, "String()=%q, canonical rendering %q for %s", og, ow, other.Brief())
+				return
+			}
+			if again != want {
+				c.Violatef("changed-by-unrelated-tree", tree, "String() gave %q, and %q after an unrelated tree (%s) was built and rendered", want, again, other.Brief())
+				return
+			}
+			c.Count("rendered.again-after-unrelated-tree")
+		}
+	}
 	// second phase: change options on the LIVE instances (current and deprecated spellings, explicit and toggling
 	// forms) and render again - nothing computed for the first rendering may be reused stale
 	if idx%3 == 0 {
